@@ -30,7 +30,7 @@ def main():
             rc, out = sh(os.environ.get("PSA_BIN", "/verif/bin/psa") + " check %s --no-evidence" % pid, cwd=os.environ.get("PSA_VERIF", "/verif"), env=env)
             for l in out.splitlines():
                 if re.match(r"^\S*: [A-Z0-9@-]+ \[", l) or l.startswith("psa:") or l.startswith("KNOWN"):
-                    print(pid, l[:int(os.environ.get("W", "600"))])
+                    print(pid, l[:int(os.environ.get("WIDTH", "600"))])
     finally:
         shutil.rmtree(tmp, ignore_errors=True)
 main()
